@@ -843,7 +843,12 @@ impl Job {
             }
             "reader" => {
                 let malformed = r.chance(1, 8);
-                let base = gen_base(ctx, &mut r, malformed, 25, 64 << 10);
+                let base = if !malformed && r.chance(1, 150) {
+                    // a chunk body above 1 MiB (read paths often switch strategy with size)
+                    huge_chunk_base(&mut r)
+                } else {
+                    gen_base(ctx, &mut r, malformed, 25, 64 << 10)
+                };
                 p.base_desc = base.desc.clone();
                 if malformed && base.bug.is_none() {
                     let other = gen_base(ctx, &mut r, false, 0, 64 << 10);
@@ -1006,4 +1011,59 @@ pub fn c16_cell_base(ctx: &Ctx, k: u64) -> Option<Base> {
         }
     }
     None
+}
+
+/// A small sprite whose last chunk is one raw image cel of more than 1 MiB.
+pub fn huge_chunk_base(r: &mut Rng) -> Base {
+    let gseed = r.next();
+    let mut sr = Rng::sub(gseed, "spec");
+    let mut s = spec::gen_spec(&mut sr);
+    s.fmt = spec::Fmt::Rgba;
+    s.tilesets.clear();
+    for l in &mut s.layers {
+        if l.kind == 2 {
+            l.kind = 0;
+        }
+    }
+    s.cels.retain(|c| matches!(c.body, spec::CelBody::Linked(_)) == false && !matches!(c.body, spec::CelBody::Tilemap { .. }));
+    for c in &mut s.cels {
+        if let spec::CelBody::Raw { w, h, pixels, .. } = &mut c.body {
+            *pixels = vec![7; *w as usize * *h as usize * 4];
+        }
+    }
+    let (w, h) = *r.pick(&[(640u16, 480u16), (520, 520), (1024, 300)]);
+    let li = s.layers.iter().rposition(|l| l.kind == 0).unwrap_or(0) as u16;
+    if s.layers[li as usize].kind != 0 {
+        s.layers[li as usize].kind = 0;
+    }
+    let fi = (s.durations.len() - 1) as u16;
+    s.cels.retain(|c| !(c.layer == li && c.frame == fi));
+    let mut px = vec![0u8; w as usize * h as usize * 4];
+    for (i, b) in px.iter_mut().enumerate() {
+        *b = (i as u32).wrapping_mul(2654435761).rotate_left(9) as u8;
+    }
+    s.cels.push(spec::CelSpec {
+        frame: fi,
+        layer: li,
+        x: 0,
+        y: 0,
+        opacity: 255,
+        body: spec::CelBody::Raw {
+            w,
+            h,
+            pixels: px,
+            compressed: r.chance(1, 4),
+            level: 1,
+        },
+        ud: None,
+        extra: false,
+    });
+    let bytes = spec::encode(&s, &EncOpts { seed: gseed, neutral: true });
+    let map = format::walk(&bytes);
+    Base {
+        desc: format!("gen:{:016x}+huge-raw-cel {}x{}", gseed, w, h),
+        bytes,
+        map,
+        bug: None,
+    }
 }
